@@ -22,6 +22,8 @@ import (
 	"github.com/algorand/go-algorand/crypto/merkletrie"
 	"github.com/algorand/go-algorand/data/basics"
 	"github.com/algorand/go-algorand/data/bookkeeping"
+	"github.com/algorand/go-algorand/data/txntest"
+	"github.com/algorand/go-algorand/ledger/eval"
 	"github.com/algorand/go-algorand/ledger/ledgercore"
 	"github.com/algorand/go-algorand/ledger/store/trackerdb"
 	"github.com/algorand/go-algorand/protocol"
@@ -124,10 +126,87 @@ func c14Trie(r *kit.Rand, def merkletrie.MemoryConfig) merkletrie.MemoryConfig {
 	}
 }
 
+// c14Script adds, to every block of the generated history, holdings that change over consecutive
+// rounds and are then left alone: in round r a non-creator account opts in to a dedicated asset
+// (zero holding), in round r+1 that same holding receives units or is frozen, and the script never
+// touches it again. Whether the two rounds reach the tracker DB in one commit or in two then depends
+// only on the node's flush schedule (the "every" replay has a boundary after every round, the
+// "syncer"/"batch" replays commit whole catchpoint intervals), which must not show in the labels.
+type c14Script struct {
+	assets  []basics.AssetIndex
+	creator map[basics.AssetIndex]basics.Address
+	used    map[hlRes]bool
+	pending []hlRes // opted in by the previous block, to be changed by this one
+}
+
+func (sc *c14Script) run(a *hlSim, ev *eval.BlockEvaluator) {
+	c, m, u := a.c, a.m, a.u
+	if sc.used == nil {
+		sc.used = map[hlRes]bool{}
+		sc.creator = map[basics.AssetIndex]basics.Address{}
+	}
+	// learn the dedicated assets created by earlier blocks
+	if len(sc.assets) < 4 {
+		for idx, h := range m.creators {
+			if cr, ok := h.at(m.latest); ok && cr.ctype == basics.AssetCreatable {
+				if p, ok := m.assetParams[hlRes{cr.addr, idx}].at(m.latest); ok && p.UnitName == "c14" {
+					if _, known := sc.creator[basics.AssetIndex(idx)]; !known {
+						sc.creator[basics.AssetIndex(idx)] = cr.addr
+						sc.assets = append(sc.assets, basics.AssetIndex(idx))
+					}
+				}
+			}
+		}
+		sort.Slice(sc.assets, func(i, j int) bool { return sc.assets[i] < sc.assets[j] })
+		if len(sc.assets) < 4 && ev.Round() <= 6 {
+			cr := u.keyed[4+int(ev.Round())%4]
+			cpOfferAuth(a, ev, "scripted-acreate", txntest.Txn{Type: protocol.AssetConfigTx, Sender: cr,
+				AssetParams: basics.AssetParams{Total: 1 << 40, UnitName: "c14", AssetName: fmt.Sprintf("c14-%d", ev.Round()), Manager: cr, Freeze: cr}})
+		}
+	}
+	// second round of the holdings opted in by the previous block
+	for _, k := range sc.pending {
+		asset := basics.AssetIndex(k.idx)
+		cr := sc.creator[asset]
+		if h, ok := m.assetHold[k].at(m.latest); !ok || h.Amount != 0 || h.Frozen {
+			continue
+		}
+		var err error
+		if a.r.Chance(1, 3) {
+			err = cpOfferAuth(a, ev, "scripted-freeze", txntest.Txn{Type: protocol.AssetFreezeTx, Sender: cr, FreezeAsset: asset, FreezeAccount: k.addr, AssetFrozen: true})
+		} else {
+			err = cpOfferAuth(a, ev, "scripted-receive", txntest.Txn{Type: protocol.AssetTransferTx, Sender: cr, XferAsset: asset, AssetReceiver: k.addr, AssetAmount: uint64(a.r.Range(1, 1000))})
+		}
+		if err == nil {
+			c.Count("c14.optin_then_changed_in_next_round", 1)
+		}
+	}
+	sc.pending = sc.pending[:0]
+	// first round: a fresh (account, asset) pair opts in with a zero holding
+	if len(sc.assets) > 0 {
+		for tries := 0; tries < 12; tries++ {
+			asset := sc.assets[a.r.Intn(len(sc.assets))]
+			holder := u.keyed[a.r.Intn(len(u.keyed))]
+			k := hlRes{holder, basics.CreatableIndex(asset)}
+			if sc.used[k] || holder == sc.creator[asset] || m.acct(m.latest, holder).MicroAlgos.Raw < 10_000_000 {
+				continue
+			}
+			if _, has := m.assetHold[k].at(m.latest); has {
+				continue
+			}
+			sc.used[k] = true
+			if cpOfferAuth(a, ev, "scripted-optin", txntest.Txn{Type: protocol.AssetTransferTx, Sender: holder, XferAsset: asset, AssetReceiver: holder}) == nil {
+				sc.pending = append(sc.pending, k)
+			}
+			break
+		}
+	}
+}
+
 func TestVerifC14(t *testing.T) {
 	c := kit.Start(t, "C14", "labels")
 	defer c.Finish()
-	c.Rule("one PRNG history (payments, keyreg, assets, apps with boxes/global/local state, closes, rewards; reduced-lookback protocols with CatchpointLookback = MaxBalLookback ∈ {4, 8}, catchpoint interval ∈ {4, 8}, ≥ 5 catchpoint intervals) generated on a real ledger under a PRNG schedule and replayed with AddBlock on 5 more real ledgers: commit after every block / bursts of 6–20 blocks without waiting then one commit / background syncer only / reload or close+reopen while a first-stage record waits for its second stage / PRNG mix; MaxAcctLookback ∈ {1,2,4,8,16}, archival or not, labels only or files stored, merkle-trie config from 2 nodes per page with 1 cached node to the default; labels sampled from GetLastCatchpointLabel after each block/action and from the header of every served catchpoint file; distinct = distinct sequences of tracker commit boundaries")
+	c.Rule("one PRNG history (payments, keyreg, assets, apps with boxes/global/local state, closes, rewards, plus in every block a scripted non-creator asset opt-in with zero holding whose holding receives units or is frozen in the next round and is then left alone; reduced-lookback protocols with CatchpointLookback = MaxBalLookback ∈ {4, 8}, catchpoint interval ∈ {4, 8}, ≥ 5 catchpoint intervals) generated on a real ledger under a PRNG schedule and replayed with AddBlock on 5 more real ledgers: commit after every block / bursts of 6–20 blocks without waiting then one commit / background syncer only / reload or close+reopen while a first-stage record waits for its second stage / PRNG mix; MaxAcctLookback ∈ {1,2,4,8,16}, archival or not, labels only or files stored, merkle-trie config from 2 nodes per page with 1 cached node to the default; labels sampled from GetLastCatchpointLabel after each block/action and from the header of every served catchpoint file; distinct = distinct sequences of tracker commit boundaries")
 	c.Assume("a catchpoint a ledger never produces (skipped after a restart, a multi-interval commit or a busy commit queue) is not judged; the background syncer's timing is not controlled by the seed (it only changes which labels get produced, never what they must be)")
 	hlRegisterProtos()
 	defTrie := trackerdb.TrieMemoryConfig
@@ -157,8 +236,9 @@ func TestVerifC14(t *testing.T) {
 		var chain []bookkeeping.Block
 		a.onBlock = append(a.onBlock, func(vb *ledgercore.ValidatedBlock) { chain = append(chain, vb.Block()) })
 		all := []*c14Obs{c14NewObs("generator", fmt.Sprintf("policy=prng-schedule %s tracking=%d trie=default", cfg.String(), cfg.CatchpointTracking))}
+		script := &c14Script{}
 		for i := 0; i < blocks; i++ {
-			a.step()
+			cpStepWith(a, func(ev *eval.BlockEvaluator) { script.run(a, ev) })
 			all[0].sample(c, a)
 			act := cpScheduleAction(a)
 			c.Count("schedule.generator."+act, 1)
@@ -305,4 +385,5 @@ func TestVerifC14(t *testing.T) {
 	c.Require("c14.rounds_compared", int64(c.N(12, 80)))
 	c.Require("c14.restart_between_stages", int64(c.N(3, 20)))
 	c.Require("c14.files_read", int64(c.N(3, 20)))
+	c.Require("c14.optin_then_changed_in_next_round", int64(c.N(30, 200)))
 }
